@@ -40,6 +40,17 @@ static inline qstr qstr_jidToUser(qstr j) { if (j == 0) return 0; return __CPROV
 static inline qstr qstr_toLower(qstr j) { if (j == 0) return 0; qstr r = __CPROVER_uninterpreted_str_lower(j); __CPROVER_assume(r != 0 && __CPROVER_uninterpreted_str_lower(r) == r); return r; }
 static inline qstr qstr_trimmed(qstr j) { if (j == 0) return 0; qstr r = __CPROVER_uninterpreted_str_trimmed(j); __CPROVER_assume(r == 0 || __CPROVER_uninterpreted_str_trimmed(r) == r); return r; }
 
+/* concatenation and regular expressions: uninterpreted; only  a + "" = a,  "" + b = b  and "non-empty parts give a non-empty whole" */
+typedef int qrematch;   /* QRegularExpressionMatch: 0 = no match, otherwise an opaque match handle */
+qstr __CPROVER_uninterpreted_str_concat(qstr a, qstr b);
+qstr __CPROVER_uninterpreted_re_anchored(qstr p);
+qstr __CPROVER_uninterpreted_re_escape(qstr p);
+qrematch __CPROVER_uninterpreted_re_match(qstr pattern, qstr subject);
+static inline qstr qstr_concat(qstr a, qstr b) { if (a == 0) return b; if (b == 0) return a; qstr r = __CPROVER_uninterpreted_str_concat(a, b); __CPROVER_assume(r != 0); return r; }
+static inline qstr qstr_anchoredPattern(qstr p) { return __CPROVER_uninterpreted_re_anchored(p); }
+static inline qstr qstr_regexEscape(qstr p) { return p == 0 ? 0 : __CPROVER_uninterpreted_re_escape(p); }
+static inline qrematch qstr_regexMatch(qstr pattern, qstr subject) { return __CPROVER_uninterpreted_re_match(pattern, subject); }
+
 qstr __CPROVER_uninterpreted_dom_tag(qdom e);
 qstr __CPROVER_uninterpreted_dom_ns(qdom e);
 qstr __CPROVER_uninterpreted_dom_attr(qdom e, qstr name);
